@@ -64,7 +64,10 @@ def run_property(prop: str, tier: str, program: Program | None = None, write: bo
         print(f"-- view as written: exit {code}")
         for ln in getattr(rep, "result_lines", []):
             print("   " + ln)
-    if code != 0 and not os.environ.get("OPTYX_NO_NORMALISE"):
+    # A VIOLATION on the view as written is a positive identification in the code as it stands: inlining new helpers can
+    # only make that construct harder to see, so it is not allowed to discharge it.  The normalised view is consulted
+    # when the view as written could not DECIDE (exit 2).  (OPTYX_V1_DISCHARGES_VIOLATIONS=1 restores the old behaviour.)
+    if (code == 2 or (code != 0 and os.environ.get("OPTYX_V1_DISCHARGES_VIOLATIONS"))) and not os.environ.get("OPTYX_NO_NORMALISE"):
         from .normalise import inlined_view
 
         try:
